@@ -1,0 +1,15 @@
+// SPDX-FileCopyrightText: 2026 The Pion community <https://pion.ly>
+// SPDX-License-Identifier: MIT
+
+//go:build verif
+
+package cc
+
+// VerifHistoryLen returns the number of sent-packet records held (list and map sizes)
+// for the external verification harness.
+func (f *FeedbackAdapter) VerifHistoryLen() (listLen, mapLen int) {
+	f.lock.Lock()
+	defer f.lock.Unlock()
+
+	return f.history.evictList.Len(), len(f.history.items)
+}
